@@ -61,7 +61,7 @@ def run(ctx, pid):
     for name, n in plan:
         cfg = "MCXRCompose_%s.cfg" % name
         mc = ctx.model_check("MCXRCompose", cfg, sub="mc_" + name, workers=8 if ctx.quick else 16, timeout=300 if ctx.quick else 3000)
-        scs += [{"id": "%s-%s-%07d" % (pid, name, i), "hist": h} for i, h in ctx.sample_lines(mc["emitted_file"], n, mc["emitted"])]
+        scs += [{"id": "%s-%s-%07d" % (pid, name, i), "hist": h} for i, h in ctx.sample_lines_stratified(mc["emitted_file"], n, mc["emitted"])]
         states += mc["states"]
         trans += mc["transitions"]
         emitted += mc["emitted"]
